@@ -90,6 +90,10 @@ class Ctx:
 
     # --- results -----------------------------------------------------------------------------------------------------
     def verify_counts(self):
+        if os.environ.get('PFST_VERIF_COUNTS'):
+            for rid, n in self.min_expected.items():
+                print(f'  COUNT {rid}: {len(self.instances.get(rid, []))} (min {n})')
+            return
         for rid, n in self.min_expected.items():
             got = len(self.instances.get(rid, []))
             if got < n:
@@ -149,6 +153,9 @@ def run_property(prop: str, rule_module, tier: str = 'quick', repo: Repo | None 
         out(f'KNOWN-FINDING: property={prop} {known_keys[f.key].get("what", "")} :: {f.text()}')
     code = 0
     replay = ''
+    stale = os.path.join(REPLAY_DIR, f'{prop}.findings.json')
+    if write and not new and os.path.exists(stale):
+        os.unlink(stale)
     if new:
         code = 1
         if write:
